@@ -25,3 +25,31 @@ Fixpoint rrun (rv : Z) (p : list rop) : list Z :=
   match p with [] => [] | o :: r => let rv' := rstep rv o in rv' :: rrun rv' r end.
 Fixpoint rstate (rv : Z) (p : list rop) : Z :=
   match p with [] => rv | o :: r => rstate (rstep rv o) r end.
+
+(* ---------------------------------------------------------------------------------------------------------------
+   The quasi-random (Richtmeyer) sequence of mvndst: st_dkrcht, src/Basic/MathFunc.cpp:954-1010.  Its state lives in
+   statics: DKRCHT_OLDS (dimension of the running sequence), hisum and the binary counter n[0..hisum]; the vector it
+   returns is fmod(rn * sqrt(prime_i), 1) where rn is the value of the counter.  mvndst sets DKRCHT_OLDS = 0 on entry
+   (MathFunc.cpp:1342).  The model returns rn. *)
+Local Close Scope Z_scope.
+Local Open Scope nat_scope.
+Record dk := { dk_olds : nat; dk_hisum : nat; dk_n : nat -> nat }.
+Definition dk_upd (f : nat -> nat) (k v : nat) : nat -> nat := fun x => if Nat.eqb x k then v else f x.
+(* if (s differs from olds, or s < 1) { olds = s; n[0] = 0; hisum = 0; ... } *)
+Definition dk_reinit (s : nat) (st : dk) : dk :=
+  if negb (Nat.eqb s (dk_olds st)) || Nat.ltb s 1 then {| dk_olds := s; dk_hisum := 0; dk_n := dk_upd (dk_n st) 0 0 |} else st.
+(* for (i = 0; i <= hisum; ++i) { ++n[i]; if (n[i] < 2) goto L10; n[i] = 0; } *)
+Fixpoint dk_incr (idx : list nat) (n : nat -> nat) : (nat -> nat) * bool :=
+  match idx with
+  | [] => (n, false)
+  | i :: r => let v := S (n i) in if Nat.ltb v 2 then (dk_upd n i v, true) else dk_incr r (dk_upd n i 0)
+  end.
+Definition dk_core (st : dk) : nat * dk :=
+  let ns := dk_incr (seq 0 (S (dk_hisum st))) (dk_n st) in
+  let h2 := if snd ns then dk_hisum st else (if Nat.ltb 48 (S (dk_hisum st)) then 0 else S (dk_hisum st)) in
+  let n2 := if snd ns then fst ns else dk_upd (fst ns) h2 1 in
+  (fold_left (fun acc i => n2 i + 2 * acc) (rev (seq 0 (S h2))) 0, {| dk_olds := dk_olds st; dk_hisum := h2; dk_n := n2 |}).
+Definition dk_step (s : nat) (st0 : dk) : nat * dk := dk_core (dk_reinit s st0).
+Fixpoint dk_run (s : nat) (st : dk) (k : nat) : list nat :=
+  match k with O => [] | S k' => let '(r, st') := dk_step s st in r :: dk_run s st' k' end.
+Definition dk_reset (st : dk) : dk := {| dk_olds := 0; dk_hisum := dk_hisum st; dk_n := dk_n st |}.
